@@ -118,7 +118,9 @@ def segmentsAdd (o : Obj) : Obj :=
 /-- `segment::add_section_index(index, addr_align)` -/
 def segAddSection (g : Seg) (idx : BitVec 16) (align : BitVec 64) : Seg :=
   let g := { g with secs := g.secs ++ [idx] }
-  if BitVec.ult g.align align then { g with align := align } else g
+  -- `if ( addr_align > get_align() )`; the ELF32 instantiation has the same condition
+  -- (`save_segadd_raise32`, Lemmas/WriterSites.lean)
+  if save_segadd_raise align g.align then { g with align := align } else g
 
 /-! ### save: ordering -/
 
@@ -133,7 +135,9 @@ def stdIncludes : List (BitVec 16) → List (BitVec 16) → Bool
 
 /-- `is_subsequence_of(seg1, seg2)` -/
 def isSubsequenceOf (s1 s2 : Seg) : Bool :=
-  if s1.secs.length < s2.secs.length then stdIncludes s2.secs s1.secs else false
+  if save_subseq_shorter (BitVec.ofNat 64 s1.secs.length) (BitVec.ofNat 64 s2.secs.length) then
+    stdIncludes s2.secs s1.secs
+  else false
 
 /-- first loop of `get_ordered_segments`: bring offset-0 segments to the front -/
 def orderFront (wl : Array Seg) : M (Array Seg) := do
@@ -146,11 +150,11 @@ def orderFront (wl : Array Seg) : M (Array Seg) := do
       match wl[i]? with
       | none => throw (.vecOob "get_ordered_segments/worklist[i]")
       | some si =>
-        if i != nextSlot && si.offsetSet && si.offset == 0 then
+        if save_gos_front (BitVec.ofNat 64 i) (BitVec.ofNat 64 nextSlot) si.offsetSet si.offset then
           match wl[nextSlot]? with
           | none => throw (.vecOob "get_ordered_segments/worklist[nextSlot]")
           | some sn =>
-            let nextSlot := if sn.offset == 0 then nextSlot + 1 else nextSlot
+            let nextSlot := if save_gos_slot_zero sn.offset then nextSlot + 1 else nextSlot
             match wl[nextSlot]? with
             | none => throw (.vecOob "get_ordered_segments/swap")
             | some sn2 =>
@@ -178,15 +182,25 @@ structure Layout where
   pos : BitVec 64
   gen : List Bool          -- section_generated
 
+/-- `sec->get_index()` (an `Elf_Half`) as the generated `0 != sec->get_index()` tests receive it.
+    `SecBuf.index` is a `Nat` that creation and loading keep below 65536; it is handed over saturated
+    at the largest `Elf_Half`, so that "not 0" means `index ≠ 0` for every value of the field. -/
+def secIndexHalf (b : SecBuf) : BitVec 16 := BitVec.ofNat 16 (min b.index 65535)
+
+/-- `if ( 0 != sec->get_index() ) sec->set_offset( v );` of `write_segment_data` -/
 def setOffset (c : Cls) (b : SecBuf) (v : BitVec 64) : SecBuf :=
-  if b.index != 0 then { b with offset := truncA c v } else b
+  if wsd_index_nonzero (secIndexHalf b) then { b with offset := truncA c v } else b
+
+/-- the same statement in `layout_sections_without_segments` -/
+def setOffsetLoose (c : Cls) (b : SecBuf) (v : BitVec 64) : SecBuf :=
+  if lsws_index_nonzero (secIndexHalf b) then { b with offset := truncA c v } else b
 
 /-- `calc_segment_alignment` -/
 def calcSegAlign (secs : List SecBuf) (g : Seg) : M Seg :=
   g.secs.foldlM (fun g idx =>
     match secs[idx.toNat]? with
     | none => throw (.vecOob "calc_segment_alignment/sections_[index]")
-    | some s => pure (if BitVec.ult g.align s.addrAlign then { g with align := s.addrAlign } else g)) g
+    | some s => pure (if save_csa_raise s.addrAlign g.align then { g with align := s.addrAlign } else g)) g
 
 /-- state of `write_segment_data`'s loop -/
 structure WsdSt where
@@ -212,21 +226,21 @@ def wsdStep (c : Cls) (g : Seg) (segStart : BitVec 64) (st : WsdSt) (idx : BitVe
         let cur := wsd_cur_offset pos segStart
         if wsd_req_lt_cur req cur then none else some (wsd_gap_addr req cur)
       else if wsd_align_branch generated sec.addrSet then
-        let al := if wsd_align_zero sec.addrAlign then 1 else sec.addrAlign
+        let al := if wsd_align_zero sec.addrAlign then wsd_align_one else sec.addrAlign
         some (wsd_gap_align al (wsd_error pos al))
-      else if generated then some (wsd_gap_generated sec.offset segStart st.file)
-      else some 0
+      else if wsd_generated_branch generated then some (wsd_gap_generated sec.offset segStart st.file)
+      else some wsd_gap_default
     match gapR with
     | none => pure none
     | some gap =>
       let mem := if wsd_counts_mem sec.flags g.stype sec.stype then wsd_mem_add st.mem sec.size gap else st.mem
       let file := if wsd_counts_file sec.stype then wsd_file_add st.file sec.size gap else st.file
-      if generated then pure (some { st with mem := mem, file := file }) else
+      if wsd_generated_skip generated then pure (some { st with mem := mem, file := file }) else
       let pos := wsd_cursor_gap pos gap
-      let sec := if !sec.addrSet then
+      let sec := if wsd_addr_missing sec.addrSet then
           { sec with addr := truncA c (wsd_new_addr g.vaddr pos segStart), addrSet := true } else sec
       let sec := setOffset c sec pos
-      let pos := if wsd_counts_file sec.stype then wsd_advance pos sec.size else pos
+      let pos := if wsd_occupies sec.stype then wsd_advance pos sec.size else pos
       pure (some { lay := { secs := st.lay.secs.set i sec, pos := pos, gen := st.lay.gen.set i true },
                    mem := mem, file := file })
 
@@ -237,10 +251,19 @@ def wsdLoop (c : Cls) (g : Seg) (segStart : BitVec 64) : List (BitVec 16) → Ws
     | none => pure none
     | some st' => wsdLoop c g segStart rest st'
 
+/-- `seg->get_sections_num()` as the three `get_sections_num() > 0` tests of
+    `layout_segments_and_their_sections` receive it.  The model keeps the member list as a `List`
+    and iterates over all of it; the count handed to the generated conditions is saturated at the
+    largest `Elf_Half`, so that "has members" means "the list is not empty" for every list (a
+    segment with 65536 or more members — where the C++ count wraps — is outside what the
+    correspondence generates, before and after this definition existed). -/
+def segMemberCount (g : Seg) : BitVec 16 := BitVec.ofNat 16 (min g.secs.length 65535)
+
 /-- one iteration of `layout_segments_and_their_sections`; returns the updated segment -/
 def layoutSegment (c : Cls) (hdrPhoff : BitVec 64) (phentsize phnum : BitVec 16) (lay : Layout) (g : Seg) :
     M (Option (Layout × Seg)) := do
   let nsec : BitVec 16 := BitVec.ofNat 16 g.secs.length
+  let nmem : BitVec 16 := segMemberCount g
   let first : Option (BitVec 16) := g.secs.head?
   let firstGen ← match first with
     | none => pure false
@@ -252,13 +275,13 @@ def layoutSegment (c : Cls) (hdrPhoff : BitVec 64) (phentsize phnum : BitVec 16)
       let sz := lseg_phdr_size phentsize phnum
       pure (lay, hdrPhoff, sz, sz)
     else if lseg_offset0 g.offsetSet g.offset then
-      pure (lay, (0 : BitVec 64), (if g.secs.length > 0 then lay.pos else 0), (if g.secs.length > 0 then lay.pos else 0))
-    else if g.secs.length > 0 && !firstGen then
+      pure (lay, (0 : BitVec 64), (if lseg_has_members0 nmem then lay.pos else 0), (if lseg_has_members0 nmem then lay.pos else 0))
+    else if lseg_fresh nmem firstGen then
       let al := lseg_align g.align
       let adj := lseg_adjustment (lseg_req_page g.vaddr al) (lseg_cur_page lay.pos al)
       let pos := lseg_advance lay.pos g.align adj al
       pure ({ lay with pos := pos }, pos, (0 : BitVec 64), (0 : BitVec 64))
-    else if g.secs.length > 0 then
+    else if lseg_has_members nmem then
       match first with
       | some f => match lay.secs[f.toNat]? with
         | some s => pure (lay, s.offset, (0 : BitVec 64), (0 : BitVec 64))
@@ -273,9 +296,13 @@ def layoutSegment (c : Cls) (hdrPhoff : BitVec 64) (phentsize phnum : BitVec 16)
     let g := { g with offset := truncA c segStart, offsetSet := true }
     pure (some (st.lay, g))
 
-/-- `is_section_without_segment(i)` -/
+/-- `is_section_without_segment(i)`: the two nested loops stop at the first hit (`!found && …`), i.e.
+    `any`; the comparison `get_section_index_at( k ) == section_index` (an `Elf_Half` against the
+    `unsigned int` parameter) and the result `!found` are the generated expressions.  The position `i`
+    is handed over as the C++ `unsigned int` it is, saturated at `UINT_MAX` (the loop counter of
+    `layout_sections_without_segments` cannot exceed it). -/
 def withoutSegment (segs : List Seg) (i : Nat) : Bool :=
-  !(segs.any fun g => g.secs.any fun k => k.toNat == i)
+  lsws_not_found (segs.any fun g => g.secs.any fun k => lsws_found k (BitVec.ofNat 32 (min i 4294967295)))
 
 /-- `layout_sections_without_segments` -/
 def layoutLoose (c : Cls) (segs : List Seg) : List SecBuf → Nat → BitVec 64 → List SecBuf → List SecBuf × BitVec 64
@@ -283,18 +310,32 @@ def layoutLoose (c : Cls) (segs : List Seg) : List SecBuf → Nat → BitVec 64 
   | s :: rest, i, pos, acc =>
     if withoutSegment segs i then
       let pos := if lsws_need_align s.addrAlign pos then lsws_aligned pos s.addrAlign else pos
-      let s := setOffset c s pos
-      let pos := if lsws_occupies s.stype then wsd_advance pos s.size else pos
+      let s := setOffsetLoose c s pos
+      let pos := if lsws_occupies s.stype then lsws_advance pos s.size else pos
       layoutLoose c segs rest (i + 1) pos (s :: acc)
     else layoutLoose c segs rest (i + 1) pos (s :: acc)
 
 /-! ### save: writing -/
 
+/-- `get_type() != SHT_NOBITS && get_type() != SHT_NULL && get_size() != 0 && get_data() != nullptr` of
+    `section_impl<T>::save` (`b` is the section after that `get_data()`) -/
+def secWritesData (c : Cls) (b : SecBuf) : Bool :=
+  match c with
+  | .c32 => save_sec_writes_data32 b.stype b.size b.data.isNone
+  | .c64 => save_sec_writes_data b.stype b.size b.data.isNone
+
+/-- the first three conjuncts of that condition: `get_data()` — which makes lazily loaded data
+    resident — is only evaluated when they hold (`&&` short-circuit) -/
+def secWantsData (c : Cls) (b : SecBuf) : Bool :=
+  match c with
+  | .c32 => save_sec_wants_data32 b.stype b.size
+  | .c64 => save_sec_wants_data b.stype b.size
+
 def saveSection (c : Cls) (enc : Enc) (shoff : BitVec 64) (shentsize : BitVec 16) (os : OStream) (b : SecBuf) : OStream :=
   let hp : Int := shoff.toInt + (Int.ofNat shentsize.toNat) * (Int.ofNat b.index)
   let os := (os.adjust hp).write (encodeShdr c enc b)
   -- `b` is the section after the `get_data()` that `section_impl::save` performs
-  if b.stype != BitVec.ofNat 32 SHT_NOBITS && b.stype != BitVec.ofNat 32 SHT_NULL && b.size != 0 && b.data.isSome then
+  if secWritesData c b then
     (os.adjust b.offset.toInt).write ((b.data.getD []).take b.size.toNat)
   else os
 
@@ -305,7 +346,7 @@ def saveSectionImpl (c : Cls) (enc : Enc) (shoff : BitVec 64) (shentsize : BitVe
   if os.fail then os else
   let hp : Int := shoff.toInt + (Int.ofNat shentsize.toNat) * (Int.ofNat b.index)
   let os := (os.adjust hp).write (encodeShdr c enc b)
-  if b.stype != BitVec.ofNat 32 SHT_NOBITS && b.stype != BitVec.ofNat 32 SHT_NULL && b.size != 0 && b.data.isSome then
+  if secWritesData c b then
     (os.adjust b.offset.toInt).write ((b.data.getD []).take b.size.toNat)
   else os
 
@@ -325,7 +366,7 @@ def saveSectionImpl (c : Cls) (enc : Enc) (shoff : BitVec 64) (shentsize : BitVe
 def residentForSave (c : Cls) (tr : List Trans) : List SecBuf → LoadSt → List SecBuf → List SecBuf × LoadSt
   | [], ls, acc => (acc.reverse, ls)
   | b :: rest, ls, acc =>
-    if b.stype != BitVec.ofNat 32 SHT_NOBITS && b.stype != BitVec.ofNat 32 SHT_NULL && b.size != 0 then
+    if secWantsData c b then
       let (ls, b) := secGetData c tr ls b
       residentForSave c tr rest ls (b :: acc)
     else residentForSave c tr rest ls (b :: acc)
@@ -345,6 +386,16 @@ structure SaveRes where
   obj : Obj
   os : OStream
   ok : Bool
+
+/-- `is_still_good` after the three layout passes of `save`:
+    `bool is_still_good = layout_segments_and_their_sections();`
+    `is_still_good = is_still_good && layout_sections_without_segments();`
+    `is_still_good = is_still_good && layout_section_table();`
+    `segsOk` is the result of the first pass; the other two passes always return `true` (their generated
+    `return` expressions).  With `segsOk = false` the `&&` do not evaluate their right operands — the
+    model does not run those passes either. -/
+def saveGoodAfterLayout (segsOk : Bool) : Bool :=
+  save_good2 (save_good1 (save_good_init segsOk) lsws_result) lst_result
 
 /-- One stream operation of the write phase of `save` (C16). -/
 inductive StreamOp
@@ -371,28 +422,30 @@ def saveWrite (o : Obj) (h : Bytes) (secs : List SecBuf) (segs : List Seg) (pos 
   -- save_header: header->save(stream) = seekp, write, `return stream.good()`
   let os := (os.seekp (trApply o.trans 0)).write h
   let o := { o with hdr := some h, secs := secs, segs := segs, curPos := pos }
+  -- is_still_good = is_still_good && save_header( stream );
   let good := match c with
-    | .c32 => save_header_result32 (!os.fail)
-    | .c64 => save_header_result (!os.fail)
+    | .c32 => save_good3 (saveGoodAfterLayout true) (save_header_result32 (!os.fail))
+    | .c64 => save_good3 (saveGoodAfterLayout true) (save_header_result (!os.fail))
   if !good then { obj := o, os := os, ok := save_result good os.fail } else
   -- save_sections
   let shoff := Hdr.e_shoff c e h
   let (secs, ls) := residentForSave c o.trans secs { st := o.stream } []
   let o := { o with secs := secs, stream := ls.st }
   let os := secs.foldl (saveSection c e shoff (Hdr.e_shentsize c e h)) os
-  let good := save_sections_result
+  let good := save_good4 good save_sections_result
   if !good then { obj := o, os := os, ok := save_result good os.fail } else
   -- save_segments
   let os := segs.foldl (saveSegment c e (Hdr.e_phoff c e h) (Hdr.e_phentsize c e h)) os
-  let good := save_segments_result
+  let good := save_good5 good save_segments_result
   { obj := o, os := os, ok := save_result good os.fail }
 
 /-- `elfio::save(std::ostream&)` -/
 def save (o : Obj) (os : OStream) : M SaveRes := do
+  -- `if ( !stream || header == nullptr ) return false;`
+  if save_entry_refused os.fail o.hdr.isSome then pure { obj := o, os := os, ok := false } else
   match o.hdr with
-  | none => pure { obj := o, os := os, ok := false }
+  | none => pure { obj := o, os := os, ok := false }      -- not reached: refused above
   | some h =>
-  if os.fail then pure { obj := o, os := os, ok := false } else
   let c := o.cls; let e := o.enc
   -- `for (sec : sections_) sec->get_data();` : lazily loaded data is read before the layout
   let (secs0, ls0) := allResident c o.trans o.secs { st := o.stream } []
@@ -400,9 +453,9 @@ def save (o : Obj) (os : OStream) : M SaveRes := do
   let nseg := o.segs.length % 65536
   let nsec := o.secs.length % 65536
   let h := Hdr.set_phnum c e h nseg
-  let h := Hdr.set_phoff c e h (if nseg > 0 then (Hdr.e_ehsize c e h).toNat else 0)
+  let h := Hdr.set_phoff c e h (save_phoff (BitVec.ofNat 16 nseg) (Hdr.e_ehsize c e h)).toNat
   let h := Hdr.set_shnum c e h nsec
-  let h := Hdr.set_shoff c e h 0
+  let h := Hdr.set_shoff c e h save_shoff0.toNat
   let pos0 := save_cursor0 (Hdr.e_ehsize c e h) (Hdr.e_phentsize c e h) (Hdr.e_phnum c e h)
   -- calc_segment_alignment
   let segs ← o.segs.mapM (calcSegAlign o.secs)
@@ -419,7 +472,8 @@ def save (o : Obj) (os : OStream) : M SaveRes := do
   match ← ordered.foldlM step (some (lay0, [])) with
   | none =>
     -- layout aborted: the object keeps whatever was laid out so far (not observable through save's result)
-    pure { obj := { o with hdr := some h, segs := segs, curPos := pos0 }, os := os, ok := false }
+    pure { obj := { o with hdr := some h, segs := segs, curPos := pos0 }, os := os,
+           ok := save_result (saveGoodAfterLayout false) os.fail }
   | some (lay, done) =>
     -- put the updated segments back at their indices
     let segs := segs.map fun g => (done.find? (fun d => d.index == g.index)).getD g
